@@ -790,55 +790,9 @@ func c19ErrorEdges(c *core.Ctx, fns []*ssa.Function) {
 		last := f.Signature.Results().Len() - 1
 		var test *ssa.If
 		var emptySucc *ssa.BasicBlock
-		for _, u := range core.Referrers(p) {
-			bo, ok := u.(*ssa.BinOp)
-			if !ok || (bo.Op != token.EQL && bo.Op != token.NEQ) {
-				continue
-			}
-			other := bo.Y
-			if bo.Y == ssa.Value(p) {
-				other = bo.X
-			}
-			k, ok := other.(*ssa.Const)
-			if !ok || k.Value == nil || k.Value.Kind() != constant.String || constant.StringVal(k.Value) != "" {
-				continue
-			}
-			for _, uu := range core.Referrers(bo) {
-				if ifi, ok := uu.(*ssa.If); ok && test == nil {
-					test = ifi
-					if bo.Op == token.EQL {
-						emptySucc = ifi.Block().Succs[0]
-					} else {
-						emptySucc = ifi.Block().Succs[1]
-					}
-				}
-			}
-		}
-		// len(p) == 0 and its variants
-		for _, u := range core.Referrers(p) {
-			lc, ok := u.(*ssa.Call)
-			if !ok {
-				continue
-			}
-			if bi, ok := lc.Call.Value.(*ssa.Builtin); !ok || bi.Name() != "len" {
-				continue
-			}
-			for _, uu := range core.Referrers(lc) {
-				bo, ok := uu.(*ssa.BinOp)
-				if !ok {
-					continue
-				}
-				_, zs, okT := a5LenTest(bo, func(v ssa.Value) bool { return v == ssa.Value(lc) })
-				if !okT || zs < 0 {
-					continue
-				}
-				for _, u3 := range core.Referrers(bo) {
-					if ifi, ok := u3.(*ssa.If); ok && test == nil {
-						test = ifi
-						emptySucc = ifi.Block().Succs[zs]
-					}
-				}
-			}
+		// `p == ""`, `len(p) == 0`, their negations, or a repository predicate that decides exactly that (isSet(p))
+		if ts := h1EmptyTests(p); len(ts) > 0 {
+			test, emptySucc = ts[0].ifi, ts[0].empty
 		}
 		if test == nil {
 			noTest := "no `" + p.Name() + " == \"\"` test: empty input is parsed (and fails) instead of yielding empty output"
